@@ -145,8 +145,8 @@ theorem groupsAll_optOf (cap : Bool) (l : List Spec.Pat) (h : ∀ p ∈ l, Pat.G
 mutual
 theorem both_groups (cap : Bool) : ∀ (e : Expr), (∀ p ∈ (e.both cap).1, Pat.GroupsAll cap p) ∧ Pat.GroupsAll cap (e.both cap).2
   | .lit c => by
-    have h : ∀ p ∈ (flat c).map Spec.Pat.chr, Pat.GroupsAll cap p := by
-      intro p hp; obtain ⟨x, _, rfl⟩ := List.mem_map.mp hp; trivial
+    have h : ∀ p ∈ (atomsOf c).map atomPat, Pat.GroupsAll cap p := by
+      intro p hp; obtain ⟨x, _, rfl⟩ := List.mem_map.mp hp; cases x <;> trivial
     simp only [Expr.both]
     exact ⟨h, groupsAll_catList cap _ h⟩
   | .cls cs => by
